@@ -494,4 +494,105 @@ inductive CCfg.EReach (c : CCfg) : CESt → Prop
 
 def CCfg.efinal (s : CESt) : Bool := CCfg.final s.base
 
+/-! ## the combine phase in detail: lock acquire / combine() body / release
+
+In all three work functions the combine stage is
+`{ std::unique_lock<std::mutex> lock(_thread_mutex); task->combine(); }`.  The machines above treat
+"lock acquired + combine entered" (`center`) and "combine left + lock released" (`cleave`) as one step each.  The
+refinement below splits them: `lock t` (mutex acquired), `cbeg t` / `cend t` (body of `combine()`), `unlock t`
+(end of the `unique_lock`'s scope).  It is generic in the protocol machine (`step`, projection `ph`): `lock` is the
+machine's `center`, `unlock` its `cleave`, the body events are internal to the phase `inComb`.
+Ghost state `log`: the workers whose `combine()` body has completed, in order - the combined result of the job is
+the fold of the workers' local results in this order. -/
+
+inductive XEv
+  | base (e : Ev)       -- any event of the protocol machine except `center` / `cleave`
+  | lock (t : Nat)      -- worker `t` has acquired `_thread_mutex`
+  | cbeg (t : Nat)      -- worker `t` enters the body of `combine()`
+  | cend (t : Nat)      -- worker `t` leaves the body of `combine()`
+  | unlock (t : Nat)    -- worker `t` releases `_thread_mutex`
+deriving Repr, DecidableEq
+
+structure XSt (σ : Type) where
+  base : σ
+  sub : Nat → Nat       -- inside the locked section: 0 = locked, 1 = in `combine()`, 2 = body left
+  log : List Nat        -- ghost: completed `combine()` bodies, in order
+
+def isCombEv : Ev → Bool
+  | .center _ | .cleave _ => true
+  | _ => false
+
+def xstep {σ : Type} (step : σ → Ev → Option σ) (ph : σ → Nat → Ph) (s : XSt σ) : XEv → Option (XSt σ)
+  | .base e => if isCombEv e then none else (step s.base e).map fun b => { s with base := b }
+  | .lock t => (step s.base (.center t)).map fun b => { s with base := b, sub := upd s.sub t 0 }
+  | .cbeg t => if ph s.base t = .inComb ∧ s.sub t = 0 then some { s with sub := upd s.sub t 1 } else none
+  | .cend t =>
+    if ph s.base t = .inComb ∧ s.sub t = 1 then some { s with sub := upd s.sub t 2, log := s.log ++ [t] } else none
+  | .unlock t =>
+    if s.sub t = 2 then (step s.base (.cleave t)).map fun b => { s with base := b, sub := upd s.sub t 3 } else none
+
+def xinit {σ : Type} (s0 : σ) : XSt σ := { base := s0, sub := fun _ => 3, log := [] }
+
+def LCfg.xstep (c : LCfg) : XSt LSt → XEv → Option (XSt LSt) := FeatModel.DA.xstep c.step (fun s => s.ph)
+def CCfg.xstep (c : CCfg) : XSt CSt → XEv → Option (XSt CSt) := FeatModel.DA.xstep c.step (fun s => s.ph)
+def NCfg.xstep (c : NCfg) : XSt NSt → XEv → Option (XSt NSt) := FeatModel.DA.xstep c.step (fun s => s.ph)
+
+inductive LCfg.XReach (c : LCfg) : XSt LSt → Prop
+  | init : LCfg.XReach c (xinit c.init)
+  | step {s s' : XSt LSt} (e : XEv) : LCfg.XReach c s → c.xstep s e = some s' → LCfg.XReach c s'
+
+inductive CCfg.XReach (c : CCfg) : XSt CSt → Prop
+  | init : CCfg.XReach c (xinit c.init)
+  | step {s s' : XSt CSt} (e : XEv) : CCfg.XReach c s → c.xstep s e = some s' → CCfg.XReach c s'
+
+inductive NCfg.XReach (c : NCfg) : XSt NSt → Prop
+  | init : NCfg.XReach c (xinit c.init)
+  | step {s s' : XSt NSt} (e : XEv) : NCfg.XReach c s → c.xstep s e = some s' → NCfg.XReach c s'
+
+/-- worker `t` is executing the body of `combine()` -/
+def inBody {σ : Type} (ph : σ → Nat → Ph) (s : XSt σ) (t : Nat) : Prop := ph s.base t = .inComb ∧ s.sub t = 1
+
+/-- worker `t` holds `_thread_mutex` -/
+def holdsLock {σ : Type} (ph : σ → Nat → Ph) (s : XSt σ) (t : Nat) : Prop := ph s.base t = .inComb
+
+/-- the combined result of a job: the workers' local results `loc w` folded in the order the bodies completed -/
+def combinedResult {α : Type} (op : α → α → α) (z : α) (loc : Nat → α) (log : List Nat) : α :=
+  log.foldl (fun acc w => op acc (loc w)) z
+
+/-! ## the error path of jobs without scatter
+
+`_work_no_scatter`: a throwing task (constructor / prepare / assemble / finish = phase `preComb` of the model, or
+`combine()` = `inComb`) makes the worker open its own fence with `false` and terminate; nobody waits for a worker
+fence, the master opens the front fence and joins. -/
+
+structure NESt where
+  base : NSt
+  failing : Nat → Bool
+  exited : Nat → Bool      -- the worker has returned through the error path
+
+def NCfg.einit (c : NCfg) : NESt := { base := c.init, failing := fun _ => false, exited := fun _ => false }
+
+def NCfg.estep (c : NCfg) (s : NESt) : EEv → Option NESt
+  | .ok e =>
+    if e.thread ≠ 0 ∧ (s.failing e.thread = true ∨ s.exited e.thread = true) then none
+    else (c.step s.base e).map fun b => { s with base := b }
+  | .fail t =>
+    if 1 ≤ t ∧ t ≤ c.n ∧ s.failing t = false ∧ s.exited t = false ∧
+        (s.base.ph t = .preComb ∨ s.base.ph t = .inComb ∨ (s.base.ph t = .done ∧ c.comb = false)) then
+      some { s with failing := updB s.failing t true,
+                    base := if s.base.ph t = .inComb then { s.base with mutex := false } else s.base }
+    else none
+  | .fopenF t f =>
+    if 1 ≤ t ∧ t ≤ c.n ∧ s.failing t = true ∧ f = t then
+      some { base := { s.base with ph := updP s.base.ph t .done }, failing := updB s.failing t false,
+             exited := updB s.exited t true }
+    else none
+  | .fwaitF _ _ => none
+
+inductive NCfg.EReach (c : NCfg) : NESt → Prop
+  | init : NCfg.EReach c c.einit
+  | step {s s' : NESt} (e : EEv) : NCfg.EReach c s → c.estep s e = some s' → NCfg.EReach c s'
+
+def NCfg.efinal (s : NESt) : Bool := NCfg.final s.base
+
 end FeatModel.DA
